@@ -480,12 +480,21 @@ def m_enumerate(m, st, ctx, args, span):
     return IterV("enumerate", args[0], 0)
 
 
-@model("std::iter::Iterator::rev", "<std::iter::Rev<I> as std::iter::IntoIterator>::into_iter")
+@model("std::iter::Iterator::rev")
 def m_rev(m, st, ctx, args, span):
-    raise Unsupported("Iterator::rev is not modelled")
+    it = args[0]
+    if isinstance(it, IterV) and it.kind in ("slice", "array") and it.b == 0:
+        return IterV("slice_rev", it.a, 0, it.kind)
+    if isinstance(it, Adt) and it.path == "std::ops::Range" and all(isinstance(f, Int) and f.is_const() for f in it.fields):
+        return IterV("range_rev", it.fields[0], it.fields[1])
+    raise Unsupported("Iterator::rev of %r" % (it,))
 
 
-@model("<I as std::iter::IntoIterator>::into_iter")
+@model("<I as std::iter::IntoIterator>::into_iter", "core::slice::iter::<impl std::iter::IntoIterator for &'a [T]>::into_iter",
+       "core::slice::iter::<impl std::iter::IntoIterator for &'a mut [T]>::into_iter",
+       "std::array::<impl std::iter::IntoIterator for &'a [T; N]>::into_iter",
+       "std::array::<impl std::iter::IntoIterator for &'a mut [T; N]>::into_iter",
+       "<std::iter::Rev<I> as std::iter::IntoIterator>::into_iter")
 def m_into_iter(m, st, ctx, args, span):
     v = args[0]
     if isinstance(v, IterV):
@@ -541,6 +550,21 @@ def iter_next(m, it_ref):
             cnt = it.b
             store(it_ref, IterV("enumerate", inner_cell.val, cnt + 1))
             return some(Tup([usize(m, cnt), nxt.fields[0]]))
+    if isinstance(it, IterV) and it.kind == "slice_rev":
+        s_, pos = it.a, it.b
+        if pos >= s_.n:
+            return none()
+        store(it_ref, IterV("slice_rev", s_, pos + 1, it.c))
+        r = Ref(s_.base.cell, s_.base.path + (("i", s_.start + s_.n - 1 - pos),), False)
+        return some(get_path(r.cell.val, r.path)) if it.c == "array" else some(r)
+    if isinstance(it, IterV) and it.kind == "range_rev":
+        a, b = it.a, it.b
+        av, bv = (a.sval(), b.sval()) if a.signed else (a.cval(), b.cval())
+        if av >= bv:
+            return none()
+        nb = int_const(bv - 1, b.w, b.signed)
+        store(it_ref, IterV("range_rev", a, nb))
+        return some(nb)
     if isinstance(it, IterV) and it.kind == "stepby":
         # StepBy: the first element, then every step-th one
         inner_cell = Cell(it.a)
@@ -575,6 +599,7 @@ def m_step_by(m, st, ctx, args, span):
 
 
 @model("<std::iter::Enumerate<I> as std::iter::Iterator>::next", "<std::iter::StepBy<I> as std::iter::Iterator>::next",
+       "<std::iter::Rev<I> as std::iter::Iterator>::next",
        "<std::slice::Iter<'a, T> as std::iter::Iterator>::next",
        "<std::slice::IterMut<'a, T> as std::iter::Iterator>::next",
        "std::iter::range::<impl std::iter::Iterator for std::ops::Range<A>>::next",
@@ -1223,6 +1248,6 @@ SHIMS["std::option::Option::<T>::map"] = SHIMS["__shim::option_map"]
 SHIMS["__shim::from_fn"] = _mk_from_fn_shim()
 SHIMS["std::array::from_fn"] = SHIMS["__shim::from_fn"]
 SHIMS["__shim::fold"] = _mk_fold_shim()
-for _n in ("<std::iter::Enumerate<I> as std::iter::Iterator>::fold", "std::iter::Iterator::fold",
+for _n in ("<std::iter::Enumerate<I> as std::iter::Iterator>::fold", "std::iter::Iterator::fold", "<std::iter::Rev<I> as std::iter::Iterator>::fold",
            "<std::slice::Iter<'a, T> as std::iter::Iterator>::fold"):
     SHIMS[_n] = SHIMS["__shim::fold"]
